@@ -196,6 +196,7 @@ func shrinkInput(in *Input, fails func(*Input) bool, decide func(*Input) []int, 
 			},
 			func(c *Input) bool { ch := len(c.Cfg.FineSites) > 0; c.Cfg.FineSites = nil; return ch },
 			func(c *Input) bool { ch := c.Cfg.FineHeld; c.Cfg.FineHeld = false; return ch },
+			func(c *Input) bool { ch := c.Cfg.ClockCreepNs != 0; c.Cfg.ClockCreepNs = 0; return ch },
 			func(c *Input) bool {
 				if len(c.Cfg.FineSites) < 2 {
 					return false
